@@ -1440,6 +1440,46 @@ func runC18Histories(c *Ctx) {
 			}
 		}
 	}
+	// paths that go through a contained resource: the operation lands in the resource handed in, or is refused
+	{
+		mkRes := func() fhir.Resource {
+			return mustResource(`{"resourceType":"Patient","id":"h7","contained":[{"resourceType":"Patient","id":"c1","birthDate":"1980-02-29","name":[{"family":"A"},{"family":"B"}]}],"birthDate":"2000-01-01"}`)
+		}
+		type tc struct {
+			what string
+			run  func(r fhir.Resource) error
+			want string
+		}
+		cont := func(body string) string {
+			return `{"birthDate":"2000-01-01","contained":[{` + body + `"id":"c1",` + `"resourceType":"Patient"}],"id":"h7","resourceType":"Patient"}`
+		}
+		for _, t := range []tc{
+			{"delete Patient.contained[0].birthDate", func(r fhir.Resource) error { return patch.Delete(r, "Patient.contained[0].birthDate") }, cont(`"name":[{"family":"A"},{"family":"B"}],`)},
+			{"delete Patient.contained[0].name[0]", func(r fhir.Resource) error { return patch.Delete(r, "Patient.contained[0].name[0]") }, ""},
+			{"replace Patient.contained[0].birthDate", func(r fhir.Resource) error {
+				return patch.Replace(r, "Patient.contained[0].birthDate", fhir.MustParseDate("1990-05-05"))
+			}, ""},
+			{"add Patient.contained[0] active", func(r fhir.Resource) error {
+				return patch.Add(r, "Patient.contained[0]", "active", fhir.Boolean(true), &patch.Options{})
+			}, ""},
+		} {
+			r := mkRes()
+			before := js(r)
+			var err error
+			_, pan, _ := safeErr(func() error { err = t.run(r); return nil })
+			c.Observe("contained "+t.what, true)
+			c.Law(!pan, "C18/history", "a patch operation returns", t.what, "panic")
+			if err == nil {
+				good := js(r) != before
+				if t.want != "" {
+					good = js(r) == t.want
+				}
+				c.Law(good, "C18/contained-copy", "an operation that reports success has changed the resource it was given (a path through `contained` must not be applied to an unpacked copy)", t.what+" on "+before, "returned nil; resource afterwards: "+js(r))
+			} else {
+				c.Law(js(r) == before, "C18/error-modified", "a refused operation leaves the resource as it was", t.what, js(r))
+			}
+		}
+	}
 	// the protos' placeholder enum value is not a code of any value set
 	for _, v := range []string{"invalid-uninitialized", "INVALID_UNINITIALIZED", "invalid_uninitialized"} {
 		p := mustResource(`{"resourceType":"Patient","id":"h4","gender":"male"}`)
